@@ -176,7 +176,10 @@ def _run(V, work, tier):
     PLACES = ["%s", "(let (OPEN h %s CLOSE) h)", "(let* (OPEN a 1 CLOSE OPEN h %s CLOSE) h)", "(flet (OPEN g () %s CLOSE) (g))", "(labels (OPEN g () %s CLOSE) (g))",
               "(cond OPEN (nil? %s) 1 CLOSE OPEN else 2 CLOSE)", "(handler-bind (OPEN my-c (lambda (c &rest r) %s) CLOSE) (error 'my-c 1))",
               "(let (OPEN f (lambda () %s) CLOSE) (funcall f))", "(list 1 (if true %s 0))", "(let (OPEN x 1 CLOSE) (let* (OPEN y (list %s) CLOSE) y))",
-              "(progn (defun wrap () %s) (wrap))", "(dotimes (i 1) %s)", "(and true %s)", "(thread-first 1 (list %s))"]
+              "(progn (defun wrap () %s) (wrap))", "(dotimes (i 1) %s)", "(and true %s)", "(thread-first 1 (list %s))",
+              # the call stands AFTER a quoted list in the same form, or in a form that encloses one (data ends where its list ends)
+              "(list '(1 2) %s)", "(list '() %s)", "(list [1 2] %s)", "(list (quote (a b)) %s)", "(if (nil? '(1)) '() %s)", "(cond OPEN false '() CLOSE OPEN true '(x) %s CLOSE)",
+              "(progn '(a (b)) %s)", "(let (OPEN q '(1) CLOSE) %s)", "(list (list '(1)) %s)", "(list '(1 (2 (3))) 0 %s)"]
     CALLS = [("car", "(car '(1) '(2))"), ("car", "(car '(1))"), ("car", "(car)"), ("add2", "(add2 1)"), ("add2", "(add2 1 2)"), ("add2", "(add2 1 2 3)"), ("cons", "(cons 1)"), ("if", "(if 1 2)")]
     for pl in PLACES:
         for style in ("paren", "bracket"):
